@@ -97,7 +97,7 @@ func isPointSlice(t types.Type) bool {
 func runC10(c *core.Ctx) {
 	c.Rule("C10.cow", "A4: on every path, the target of every message Set*, of every store/delete on a models.Fields/models.Tags map and of every element store into a []BatchPointMessage is owned: derived from ShallowCopy/Copy/make/literal/constructor, an owned-only parameter, or an owned-only struct field")
 	c.Rule("C10.dims", "A4: a slice obtained from a message's Dimensions()/TagNames is not filtered or appended to in place (x[:0], append(x[:i]…)): it is the grouping node's own slice, shared by every point")
-	c.Rule("C10.skel", "A1: guard skeletons of stateful per-point nodes: eval drops a point whose expression failed whatever the quiet flag (quiet only silences the log); derivative resets its previous point at every BeginBatch, stores the previous point iff the current one parses, emits iff both parse ∧ elapsed≠0 ∧ ¬(nonNegative ∧ diff<0)")
+	c.Rule("C10.skel", "A1: guard skeletons of stateful per-point nodes: every per-group BeginBatch resets its per-batch state on every non-error path (not only when the size hint is positive); state tracking discards a point whose predicate failed without touching the tracker; eval drops a point whose expression failed whatever the quiet flag (quiet only silences the log); derivative resets its previous point at every BeginBatch, stores the previous point iff the current one parses, emits iff both parse ∧ elapsed≠0 ∧ ¬(nonNegative ∧ diff<0)")
 
 	x := &c10Ctx{c: c, fieldOK: map[*types.Var]int{}, paramOK: map[string]int{}, funcs: map[*types.Func]*core.Func{}, callers: map[*types.Func][]c10Call{}}
 	for _, p := range c.P.ModPkgs {
@@ -930,6 +930,93 @@ func c10Skel(c *core.Ctx, root *packages.Package) {
 			if good {
 				c.Ok("C10.skel", "derivativeGroup.BeginBatch#reset")
 			}
+		}
+	}
+	// every per-group BeginBatch: a field of the group that is reset (nil / zero value / fresh make) on some path is reset
+	// on every path that does not end in an error — a per-batch reset must not depend on the begin message's size hint
+	nBB := 0
+	for _, bf := range core.AllFuncs(c.P.Pkg("")) {
+		if bf.Decl.Recv == nil || bf.Decl.Name.Name != "BeginBatch" || bf.Decl.Body == nil {
+			continue
+		}
+		recvT := core.RecvTypeName(bf.Obj)
+		if recvT == "derivativeGroup" {
+			continue // decided above with its own message
+		}
+		binfo := bf.Pkg.TypesInfo
+		recvName := an.RecvVarName(bf.Decl)
+		eng := &an.Engine{Prog: c.P,
+			TrackStore: func(lhs ast.Expr, key string) string {
+				if sel, ok := ast.Unparen(lhs).(*ast.SelectorExpr); ok {
+					if id, ok := sel.X.(*ast.Ident); ok && id.Name == recvName && an.FieldSel(binfo, sel, recvT, sel.Sel.Name) {
+						return sel.Sel.Name
+					}
+				}
+				return ""
+			}}
+		paths, err := eng.Run(bf)
+		if err != nil {
+			continue // functions the engine does not model are not part of this sweep
+		}
+		resets := map[string]bool{}
+		for _, p := range paths {
+			for _, e := range p.Events {
+				if e.Kind == "store" && (e.Args[0] == "nil" || e.Args[0] == "0" || e.Args[0] == "false" || strings.HasPrefix(e.Args[0], "zero:")) {
+					resets[e.Name] = true
+				}
+			}
+		}
+		if len(resets) == 0 {
+			continue
+		}
+		nBB++
+		good := true
+		for _, p := range paths {
+			if n := len(p.Rets); n > 0 && p.Rets[n-1] != "nil" {
+				continue
+			}
+			for f := range resets {
+				if !p.Has(f) {
+					good = false
+					c.Fail("C10.skel", recvT+".BeginBatch#reset-"+f, p.RetPos, "%s.%s is reset at the start of a batch on some paths but not on path [%s]: state of the previous batch leaks into the next one exactly when an upstream node (where, eval, flatten …) forwarded the begin message with size hint 0", recvT, f, p.Cond())
+				}
+			}
+		}
+		if good {
+			c.Ok("C10.skel", recvT+".BeginBatch#resets")
+		}
+	}
+	c.Floor("C10.skel", "per-group BeginBatch methods that reset state", nBB, 2)
+	// state tracking: a point whose predicate cannot be evaluated is discarded without touching the tracker
+	if fn := c.Need("C10.skel", "", "stateTrackingGroup", "track"); fn != nil {
+		eng := &an.Engine{Prog: c.P,
+			TrackCall: func(call *ast.CallExpr, callee *types.Func) string {
+				if callee != nil && callee.Name() == "track" && callee != fn.Obj {
+					return "tracker"
+				}
+				if callee != nil && callee.Name() == "SetFields" {
+					return "SetFields"
+				}
+				return ""
+			},
+			Classify: func(a an.Atom) (string, bool) {
+				if a.Op == token.EQL && a.R == "nil" && an.CallResultOf(a.L, "EvalPredicate", 1) {
+					return "evalok", false
+				}
+				return "", false
+			}}
+		paths, err := eng.Run(fn)
+		if err != nil {
+			c.Undecided("C10.skel", "stateTrackingGroup.track", fn.Decl.Pos(), "%v", err)
+		} else {
+			an.CheckTable(c, "C10.skel", "stateTrackingGroup.track", paths, an.Table{Atoms: []string{"evalok"},
+				Outcome: func(p *an.Path) string { return an.Seq(p, "tracker", "SetFields") },
+				Expect: func(a map[string]bool) string {
+					if a["evalok"] {
+						return "tracker,SetFields"
+					}
+					return ""
+				}})
 		}
 	}
 	// derivative: doDerivative guard table
